@@ -152,6 +152,10 @@ type simList struct {
 	enabled bool
 	id      int64
 	acc     []fstate
+	// prevAcc: the states the file could be in before the last download that
+	// was taken (the "old file" of the listed finding empty-list-keeps-old-file
+	// when several operations of one phase touch the list one after another).
+	prevAcc []fstate
 	earlier [][]string
 	// what the requests applied to it were like
 	touched, sawNew, certainNew, onlySame, targeted bool
@@ -248,6 +252,7 @@ func (r *run) feed(l *simList, recs []*ls.Record, accepted bool) (lo, hi int) {
 			continue
 		}
 		l.certainNew = true
+		l.prevAcc = append([]fstate(nil), l.acc...)
 		crc := ls.LinesChecksum(lines)
 		next := []fstate{ns}
 		certain := true
@@ -532,7 +537,7 @@ func (r *run) judge(s *simState, ob *parObs) *mismatch {
 			}
 			desc := fmt.Sprintf("%s: file now exists=%v %d bytes sha %s; this order allows %s", where, obs.has, len(obs.nf), sha([]byte(obs.nf)), strings.Join(want, " or "))
 			switch {
-			case l.src != nil && obs == l.src.st && l.wasUnloaded && allEmpty && obs.nf != "":
+			case (l.src != nil && obs == l.src.st || hasState(l.prevAcc, obs)) && l.wasUnloaded && allEmpty && obs.nf != "":
 				return mm(stFile, "empty-list-keeps-old-file", "%s: the location now serves a list without rules and the download was accepted, but the file keeps its previous %d bytes (checksum 0 doubles as 'nothing loaded')", desc, len(obs.nf))
 			case !l.sawNew:
 				return mm(stFile, "par-failed-refresh-changed-file", "%s", desc)
